@@ -222,6 +222,7 @@ pub struct FamCfg {
     pub stride: usize,  // take every stride-th member of the LS/PG/PGH families (1 = all)
     pub mls_stride: usize, // stride for the MLS2 family
     pub mpg_stride: usize,
+    pub mls3_stride: usize,
 }
 
 pub fn families(cfg: &FamCfg) -> Vec<Shape> {
@@ -335,7 +336,7 @@ pub fn families(cfg: &FamCfg) -> Vec<Shape> {
                         let sh = share(&t[0], &t[1]) as u8 + share(&t[0], &t[2]) as u8 + share(&t[1], &t[2]) as u8;
                         if sh >= 2 && mls_simple(&t) {
                             cnt += 1;
-                            if cnt % cfg.stride.min(3) == 0 {
+                            if cnt % cfg.mls3_stride == 0 {
                                 push(
                                     &mut v,
                                     AG::Lines(t.clone()),
@@ -445,4 +446,54 @@ pub fn families(cfg: &FamCfg) -> Vec<Shape> {
         }
     }
     v
+}
+
+/// Abstract description of a concrete geometry with integer coordinates (None otherwise / mixed / empty)
+pub fn ag_from_geom(g: &Geometry<f64>) -> Option<AG> {
+    fn ip(c: Coord<f64>) -> Option<IP> {
+        if c.x.fract() == 0.0 && c.y.fract() == 0.0 && c.x.abs() < 1e6 && c.y.abs() < 1e6 {
+            Some((c.x as i64, c.y as i64))
+        } else {
+            None
+        }
+    }
+    fn lsv(l: &LineString<f64>) -> Option<Vec<IP>> {
+        l.0.iter().map(|&c| ip(c)).collect()
+    }
+    fn ring(l: &LineString<f64>) -> Option<Vec<IP>> {
+        let mut v = lsv(l)?;
+        if v.len() < 4 || v[0] != v[v.len() - 1] {
+            return None;
+        }
+        v.pop();
+        Some(v)
+    }
+    fn pl(p: &Polygon<f64>) -> Option<Poly> {
+        Some(Poly { shell: ring(p.exterior())?, holes: p.interiors().iter().map(ring).collect::<Option<Vec<_>>>()? })
+    }
+    Some(match g {
+        Geometry::Point(p) => AG::Pts(vec![ip(p.0)?]),
+        Geometry::MultiPoint(mp) if !mp.0.is_empty() => AG::Pts(mp.0.iter().map(|p| ip(p.0)).collect::<Option<Vec<_>>>()?),
+        Geometry::Line(l) => AG::Lines(vec![vec![ip(l.start)?, ip(l.end)?]]),
+        Geometry::LineString(l) if l.0.len() >= 2 => AG::Lines(vec![lsv(l)?]),
+        Geometry::MultiLineString(m) if !m.0.is_empty() && m.0.iter().all(|l| l.0.len() >= 2) => {
+            AG::Lines(m.0.iter().map(lsv).collect::<Option<Vec<_>>>()?)
+        }
+        Geometry::Polygon(p) => AG::Polys(vec![pl(p)?]),
+        Geometry::MultiPolygon(m) if !m.0.is_empty() => AG::Polys(m.0.iter().map(pl).collect::<Option<Vec<_>>>()?),
+        _ => return None,
+    })
+}
+/// is the abstract geometry inside the domain of C01/C02/C07 (valid, simple linework)
+pub fn ag_in_domain(a: &AG) -> bool {
+    match a {
+        AG::Pts(p) => {
+            let mut q = p.clone();
+            q.sort();
+            q.dedup();
+            q.len() == p.len()
+        }
+        AG::Lines(l) => mls_simple(l),
+        AG::Polys(p) => multipoly_valid(p),
+    }
 }
